@@ -26,6 +26,8 @@ func main() {
 		replay(os.Args[2:])
 	case "rerun":
 		rerun(os.Args[2:])
+	case "conc":
+		conc(os.Args[2:])
 	default:
 		fmt.Fprintln(os.Stderr, "unknown subcommand", os.Args[1])
 		os.Exit(2)
